@@ -11,11 +11,11 @@ LEVEL = 'exploration'
 TIERS = {'quick': 4000, 'thorough': 150000}
 RULE = ('seeded pushes of a real file, a BytesIO or a real directory (1-5 regular files, process cwd elsewhere with same-named decoy files or decoy directories, listdir order '
         'from the scenario) with sizes biased to 0, 1, chunk+-1, maxdata+-k, exact send-buffer fits and multiples of the chunk size, maxdata 4 KiB..1 MiB, '
-        'device paths up to 1024 bytes, mode/mtime values (0 => now), progress callback absent / counting / raising / re-entering the device with a stat() (sync), sync and async; the device\'s '
+        'device paths up to 1024 bytes, mode/mtime values (0 => now), progress callback absent / counting / raising / re-entering the device with a stat() (sync), BytesIO sources positioned past their start, one object connected twice to devices announcing different maxdata, sync and async; the device\'s '
         'sync service decodes the stream. Cases with a callback are run again without it and the host packet logs compared. '
         'non-trivial = >= 2 host WRTEs on a sync stream or a directory push; distinct = event-log digests')
 ASSUMPTIONS = ['local filesystem is a real temp dir per process; content is fully generated']
-EXPECT_PROBES = {'all': ['c07_dir_push', 'c07_exact_fit', 'c07_callback', 'c07_multi_wrte', 'c07_file_source', 'c07_reentrant_callback']}
+EXPECT_PROBES = {'all': ['c07_dir_push', 'c07_exact_fit', 'c07_callback', 'c07_multi_wrte', 'c07_file_source', 'c07_reentrant_callback', 'c07_reconnect_other_maxdata', 'c07_positioned_bytesio']}
 OWN = ('push-duplicate', 'push-missing', 'push-incomplete', 'push-content', 'push-mode', 'push-mtime', 'push-chunk', 'push-early-return', 'push-extra',
        'callback-count', 'callback-total', 'wrte-over-maxdata', 'cb-changes-wire', 'unexpected-exception', 'timeout-instead-of-result', 'hang', 'no-termination',
        'wrong-exception', 'missing-exception')
@@ -79,7 +79,22 @@ def generate(seed, tier):
             op['cb'] = 'reenter'
             op['reenter_path'] = '/sdcard/reenter'
             d['fs']['/sdcard/reenter'] = {'mode': 0o100644, 'mtime': 5, 'content': {'seed': 1, 'size': 10, 'alpha': 'bin'}, 'records': [100]}
+        if kind == 'bytesio' and g.chance(0.2):
+            op['src_pos'] = g.pick([1, 5, 100, op['content']['size'] // 2, op['content']['size']])
+            if op.get('cb') == 'reenter':
+                op['cb'] = 'count'
         ops.append(S.timeouts(g, op))
+    reconnect = g.chance(0.12) and len(ops) >= 1
+    if reconnect:
+        # one device object, two connections to devices announcing different maxdata
+        d['maxdata_sessions'] = [g.pick([1048576, 262144, 65536]), g.pick([4096, 4096, 8192])]
+        if g.chance(0.3):
+            d['maxdata_sessions'].reverse()
+        second = copy.deepcopy(ops[-1])
+        second['path'] = second['path'] + '_2'
+        if second.get('src') == 'dir':
+            d['cmds']['mkdir ' + second['path']] = {'content': {'size': 0}, 'cuts': []}
+        ops = ops + [{'op': 'maxchunk'}, {'op': 'close'}, {'op': 'connect'}, second, {'op': 'maxchunk'}]
     cfg = S.gen_config(g, 2000)
     scn = {'api': g.pick(['sync', 'async']), 'transport': 'mem', 'device': d, 'config': cfg, 'actors': [[S.timeouts(g, {'op': 'connect'})] + ops], 'object': {'banner': 'simhost'}}
     return {'seed': seed, 'scn': scn}
@@ -114,9 +129,14 @@ def evaluate(case, tapes=None):
         pr['c07_file_source'] = 1
     if has_cb:
         pr['c07_callback'] = 1
+    if scn['device'].get('maxdata_sessions'):
+        pr['c07_reconnect_other_maxdata'] = 1
+    if any(op.get('src_pos') for op in ops):
+        pr['c07_positioned_bytesio'] = 1
     if any(op.get('cb') == 'reenter' for op in ops) and scn['api'] == 'sync':
         pr['c07_reentrant_callback'] = 1
     multi = any(len(s.recv_payloads) >= 2 for s in run.device.all_streams)
+    ops = [o for o in ops if o['op'] == 'push']
     if multi:
         pr['c07_multi_wrte'] = 1
     md = run.device.maxdata
